@@ -96,8 +96,24 @@ def main():
                                             ('inconclusive:' + ','.join(r['inconclusive'])) if r['inconclusive'] else ''))
             sys.stdout.flush()
     out = os.path.join(HERE, 'seeded' if seeded else 'mutants', 'RESULTS.%s.json' % tier)
+    merged = {}
+    if os.path.exists(out) and (only or props != ALL):
+        for r in json.load(open(out)):
+            merged[r['mutant']] = r
+    for r in results:
+        old = merged.get(r['mutant'])
+        if old and props != ALL and 'fired' in old and 'fired' in r:
+            # partial re-run: update only the properties that were run
+            old['fired'] = {k: v for k, v in old['fired'].items() if k not in props}
+            old['fired'].update(r['fired'])
+            old['inconclusive'] = sorted((set(old.get('inconclusive', [])) - set(props)) | set(r['inconclusive']))
+            old['caught'] = bool(old['fired'])
+            old['tests'] = r['tests']
+            old['tests_pass'] = r['tests_pass']
+        else:
+            merged[r['mutant']] = r
     with open(out, 'w') as f:
-        json.dump(results, f, indent=1)
+        json.dump([merged[k] for k in sorted(merged)], f, indent=1)
     missed = [r['mutant'] for r in results if not r.get('caught') and 'error' not in r]
     print('%d mutants, %d caught, missed: %s' % (len(results), len(results) - len(missed), missed))
 
